@@ -209,8 +209,11 @@ class C14(H.Check):
 
     def mutants(self):
         def cache_inverted(prog):
-            fd = M.find_fn(prog, 'GenerationCache::needs_regeneration')
-            return fd is not None and M.swap_binop(fd, 'Ne', 'Eq')
+            for fn in ('GenerationCache::needs_regeneration_with_events', 'GenerationCache::needs_regeneration'):
+                fd = M.find_fn(prog, fn)
+                if fd is not None and M.swap_binop(fd, 'Ne', 'Eq', nth=1 if fn.endswith('events') else 0):
+                    return True
+            return False
 
         def flag_not_folded(prog):
             # `if force { config.force = Some(true) }` loses its effect (fourth `true` literal of run_generate)
